@@ -48,7 +48,7 @@ TIME_T_US = 2_000_000
 # time of the smallest (never judged below SCALING_FLOOR_US, where timer noise dominates); quadratic behaviour gives the
 # square of the size ratio
 SCALING_SIZES = (10000, 80000)
-SCALING_K = 3
+SCALING_K = 5
 SCALING_FLOOR_US = 1000
 KILL_MS = 4000           # the worker's watchdog: a decoder call running longer kills the worker (observed as a crash)
 MAX_COQ_LITERAL = 1500   # inputs longer than this are judged on the observation only (literal parse cost)
